@@ -57,12 +57,11 @@ func Harness_C10_deterministic() {
 	zz.Assert(keepN == zz.Or(n <= 1, zz.UF32sha1(id+shardingSalt) <= dN.upperBound), "keep iff hash <= threshold")
 }
 
-// C10/C28: Start must not panic for any rate the rules validation admits (>= 0 as implemented).
-func Harness_C10_start_nopanic() {
+// C10/C28: Start must not panic for any rate the rules validation admits (any integer: the
+// validator sets no minimum).
+func Harness_C10_C28_start_nopanic() {
 	zz.MustCover("(*github.com/honeycombio/refinery/sample.DeterministicSampler).Start")
 	n := zz.NondetInt("rate")
-	zz.Assume(n >= 0)
-	zz.Assume(n <= 1<<31)
 	d := verifDet(n)
 	id := zz.NondetStringN("traceID", 1)
 	r, keep, _, _ := d.GetSampleRate(&types.Trace{TraceID: id})
